@@ -212,6 +212,7 @@ theorem simW_hstep (parse : Bytes → Option Uuid) (hN : NamesOK) {w v : World} 
   | restart =>
     simp only [hstep, restart_identity hN w.acc hw, restart_identity hN v.acc hv]
     first | exact ⟨⟨hs, rfl, h1, h2, h3, h4, h5⟩, trivial⟩ | exact ⟨⟨hs, rfl, h1, h2, h3, h4, h5⟩, rfl⟩
+  | stop => exact ⟨⟨hs, rfl, h1, h2, h3, h4, h5⟩, rfl⟩
 
 /-- the answers of a whole-life history -/
 def hanswers (parse : Bytes → Option Uuid) : World → List HOp → List HAns
